@@ -1,10 +1,28 @@
 (* C09 — MPEG-TS output is structurally valid and carries the source frames faithfully.
-   Statements only; proofs are in Proofs/C09Proofs.v. *)
+   Statements only; proofs are in Proofs/C09*.v.
+
+   Writer  = Model/C09TsWriter.v  (mpegtsHeader, WriteMpegtsFrame, writePts, writePcr, fillStuff)
+   Frames  = Model/C09TsFrame.v   (prepareAvcHeader, the two packetizers), Model/C09Adts.v
+   Oracle  = Model/C09TsDemux.v   (independent TS / PES / PSI demultiplexer, CRC-32/MPEG),
+             adts_parse (C09Adts.v), spec_video_es (C09TsFrame.v).
+   Guards: frames carry PID 256 or 257 (wf_frames); source level: plain two-byte
+   AudioSpecificConfig, 0 <= ns, ns*90000 < 2^63, AAC frame + 7 < 8192, non-empty NAL (wf_mux). *)
 From Coq Require Import ZArith List Bool.
-From V Require Import Bytes C09Adts C09TsFrame C09TsWriter C09TsDemux C09Proofs.
+From V Require Import Bytes C09Adts C09TsFrame C09TsWriter C09TsDemux
+  C09StreamProofs C09FrameProofs C09MuxProofs C09Proofs.
 Import ListNotations.
 Open Scope Z_scope.
 
+(* whole 188-byte packets, each starting with 0x47, adaptation-field lengths
+   consistent with the packet (pkt_wf: no field and 184 payload bytes, or a field of
+   0..182 bytes followed by 183-length >= 1 payload bytes) *)
+Theorem C09_ts_packets_wellformed : forall fs, wf_frames fs = true ->
+  zlen (ts_write_all fs) mod 188 = 0 /\
+  exists ks, ts_parse (ts_write_all fs) = Some ks /\ Forall2 pkt_wf (ts_stream_packets fs) ks.
+Proof. exact ts_packets_wellformed. Qed.
+Print Assumptions C09_ts_packets_wellformed.
+
+(* the stream begins with PAT and PMT (CRC-32/MPEG correct) announcing 0x1b on PID 256 and 0x0f on PID 257 *)
 Theorem C09_ts_psi :
   match ts_units mpegts_header with
   | Some [pat; pmt] => psi_ok pat pmt = true
@@ -12,3 +30,108 @@ Theorem C09_ts_psi :
   end.
 Proof. exact ts_psi_holds. Qed.
 Print Assumptions C09_ts_psi.
+
+(* per PID, consecutive packets count (previous + 1) mod 16 — over the whole stream *)
+Theorem C09_ts_cc : forall fs, wf_frames fs = true ->
+  exists ks, ts_parse (ts_write_all fs) = Some ks /\
+    forall pre k1 mid k2 post,
+      ks = pre ++ k1 :: mid ++ k2 :: post ->
+      k_pid k2 = k_pid k1 -> (forall k, In k mid -> k_pid k <> k_pid k1) ->
+      k_cc k2 = (k_cc k1 + 1) mod 16.
+Proof. exact ts_cc. Qed.
+Print Assumptions C09_ts_cc.
+
+(* the same as a general fact about the independent demultiplexer: whatever it accepts is continuous *)
+Theorem C09_demux_checks_cc : forall ks acc r, demux_go ks acc = Some r -> cc_continuous ks.
+Proof. exact demux_cc_continuous. Qed.
+Print Assumptions C09_demux_checks_cc.
+
+(* one frame of ANY header/payload length (payload >= 1 byte), key or not, PTS
+   only or PTS+DTS, PES above or below 65535, any counter value: the packets
+   parse; the first carries payload_unit_start, on key frames random access and
+   PCR = DTS mod 2^33; the reassembled PES has the stream id, PTS and DTS mod
+   2^33 (DTS only when it differs) and payload = Header ++ Payload *)
+Theorem C09_ts_pes_roundtrip : forall cc f, 0 <= f_pid f < 8192 -> f_pay f <> [] ->
+  exists k0 ks,
+    parse_packets (fst (ts_frame_packets cc f)) = Some (k0 :: ks) /\
+    k_pusi k0 = true /\ k_pid k0 = f_pid f /\
+    Forall (fun k => k_pusi k = false /\ k_pid k = f_pid f) ks /\
+    k_rai k0 = f_key f /\
+    k_pcr k0 = (if f_key f then Some (f_dts f mod M33) else None) /\
+    parse_pes (concat (map k_payload (k0 :: ks))) =
+      Some {| p_sid := f_sid f mod 256; p_pts := f_pts f mod M33;
+              p_dts := if f_dts f =? f_pts f then None else Some (f_dts f mod M33);
+              p_payload := f_hdr f ++ f_pay f |}.
+Proof. exact ts_pes_roundtrip. Qed.
+Print Assumptions C09_ts_pes_roundtrip.
+
+(* every frame list: the demultiplexed stream is PAT, PMT and one payload unit per written frame, in order *)
+Theorem C09_ts_stream_roundtrip : forall fs, wf_frames fs = true ->
+  exists pat pmt us,
+    ts_units (ts_write_all fs) = Some (pat :: pmt :: us) /\ psi_ok pat pmt = true /\
+    units_ok unit_ok (filter has_payload fs) us = true.
+Proof. exact ts_stream_roundtrip. Qed.
+Print Assumptions C09_ts_stream_roundtrip.
+
+Theorem C09_unit_ok_meaning : forall f u, unit_ok f u = true ->
+  u_pid u = f_pid f /\ u_rai u = f_key f /\
+  (f_key f = true -> u_pcr u = Some (f_dts f mod M33)) /\
+  exists p, parse_pes (u_data u) = Some p /\
+    p_sid p = f_sid f mod 256 /\ p_pts p = f_pts f mod M33 /\
+    p_dts p = (if f_dts f =? f_pts f then None else Some (f_dts f mod M33)) /\
+    p_payload p = f_hdr f ++ f_pay f.
+Proof. exact unit_ok_meaning. Qed.
+Print Assumptions C09_unit_ok_meaning.
+
+(* video PES payload = AUD (types 1,5,6), SPS and PPS on key frames, start code, the source NAL unit *)
+Theorem C09_annexb_layout : forall sps pps nal t, is_paramset_type t = false ->
+  prepare_avc_header sps pps t ++ nal = spec_video_es sps pps nal t.
+Proof. exact annexb_layout. Qed.
+Print Assumptions C09_annexb_layout.
+
+(* D18, before the repair: an in-band SPS went out with no start code in front of it *)
+Theorem C09_annexb_paramset_refuted :
+  exists sps pps c f,
+    packetize_h264_prefix sps pps c = PkFrame f /\
+    f_hdr f ++ f_pay f = c_pay c /\ is_prefix SC3 (f_hdr f ++ f_pay f) = false /\
+    is_prefix SC4 (f_hdr f ++ f_pay f) = false.
+Proof. exact annexb_paramset_refuted. Qed.
+Print Assumptions C09_annexb_paramset_refuted.
+
+(* audio: any number of consecutive ADTS frames parses back to profile / rate index / channel
+   configuration of the AudioSpecificConfig and the source AAC frames; lengths chain to the end *)
+Theorem C09_adts_chain : forall a pays, asc_plain a = true ->
+  Forall (fun p => zlen p + 7 < 8192) pays ->
+  adts_parse (concat (map (adts_enc a) pays)) = Some (map (adts_dec a) pays).
+Proof. exact adts_chain. Qed.
+Print Assumptions C09_adts_chain.
+
+(* the oracles applied to the implementation's bytes accept the model on every well-formed input *)
+Theorem C09_model_passes : forall fs, wf_frames fs = true -> ok_writer fs (ts_write_all fs) = true.
+Proof. exact writer_passes. Qed.
+Print Assumptions C09_model_passes.
+
+Theorem C09_model_passes_mux : forall sps pps a cs, wf_mux a cs = true ->
+  exists out, mux_all sps pps a cs = MuxBytes out /\ ok_mux sps pps a cs out = true.
+Proof. exact mux_passes. Qed.
+Print Assumptions C09_model_passes_mux.
+
+(* non-vacuity: a key frame needing stuffing in its only packet, an audio frame, a
+   two-packet frame with PTS+DTS beyond 2^33, an in-band SPS (dropped) — guards hold, oracles accept *)
+Example C09_nonvacuous :
+  let fs := [ {| f_pid := 256; f_sid := 0xe0; f_dts := 8589934592 + 7; f_pts := 8589934592 + 3607;
+                 f_hdr := [0;0;0;1;9;0xf0;0;0;1]; f_pay := repeat_byte 0x65 200; f_key := true |};
+              {| f_pid := 257; f_sid := 0xc0; f_dts := 5; f_pts := 5;
+                 f_hdr := []; f_pay := [1;2;3]; f_key := false |} ] in
+  let a := {| asc_obj := 2; asc_sidx := 4; asc_chan := 2 |} in
+  let cs := [ {| c_video := true; c_dts := 0; c_pts := 40000000; c_pay := [0x67; 1] |};
+              {| c_video := true; c_dts := 0; c_pts := 40000000; c_pay := [0x65; 1; 2] |};
+              {| c_video := false; c_dts := 0; c_pts := 0; c_pay := [0x21; 0x10] |} ] in
+  wf_frames fs = true /\ ok_writer fs (ts_write_all fs) = true /\
+  length (ts_write_all fs) = Z.to_nat (188 * 5) /\
+  wf_mux a cs = true /\
+  match mux_all [0x67; 9] [0x68; 8] a cs with
+  | MuxBytes out => ok_mux [0x67; 9] [0x68; 8] a cs out = true /\ length out = Z.to_nat (188 * 4)
+  | MuxPanic => False
+  end.
+Proof. vm_compute. repeat split; reflexivity. Qed.
